@@ -53,9 +53,11 @@ META = {
               "datetimes print wall-clock = timestamp + a SYMBOLIC UTC offset, aware/UTC ones print the timestamp itself; strftime yields one "
               "token standing for the printed instant"],
     "assumptions": ["cookie names are HTTP tokens (as the property states); values are text over code points 0..255",
-                    "expiry: a naive local datetime formats as local wall-clock time (offset constant over the instant in question)"],
+                    "expiry: the process time zone is a function utcoff(instant): constant (fixed zones, -12h..+14h in 15 min steps) or two-valued "
+                    "{std, std+1h} and otherwise unconstrained (DST zones); a naive local datetime prints local wall-clock time and converts "
+                    "back to an instant through that function (datetime/timedelta/time stand-ins inside baize.responses)"],
     "bounds": {"quick": {"value_len_max": 3, "name_len_max": 2}, "thorough": {"value_len_max": 4, "name_len_max": 2}},
-    "outside": ["longer values", "values beyond U+00FF", "DST transitions between now and now+expires (one offset per run)"],
+    "outside": ["longer values (beyond the stated shapes: a backslash followed by 3 symbolic characters, a character + backslash + 2)", "values beyond U+00FF", "DST zones: offsets {std, std+1h}, |expires| <= 150 days, no local-time conversion within 2 days of a transition (ambiguous / skipped wall-clock hours are not modelled)"],
     "expect_kinds": {"all": ["roundtrip", "expiry"]},
 }
 
@@ -67,9 +69,11 @@ class Fail(Exception):
 
 def rt_shims() -> Shims:
     s = Shims()
-    s.add(DS, _cookie_is_legal_key=legal_key_shim())
+    s.add(DS, _cookie_is_legal_key=legal_key_shim()).add_compiled_regexes(DS)
     s.add(http_cookies, _OctalPatt=wrap_pattern(http_cookies._OctalPatt), _QuotePatt=wrap_pattern(http_cookies._QuotePatt),
           int=int_shim, chr=chr_shim, _nulljoin=nulljoin_shim)
+    # baize.requests itself: whatever regexes it compiles at import, and int()/chr() on matched text, run on proxies too
+    s.add(RQ, int=int_shim, chr=chr_shim).add_compiled_regexes(RQ)
     return s
 
 
@@ -101,6 +105,10 @@ def job_roundtrip(job) -> report.JobResult:
     for c in name.items:
         eng.solver.add(z3.Or([c.e == t for t in TCHAR]))
     value = SStr.fresh(lv, "v", 0, 255, eng.solver)
+    if job.get("vtemplate"):  # longer values of one shape: '*' = symbolic character, anything else literal
+        it = iter(SStr.fresh(job["vtemplate"].count("*"), "v", 0, 255, eng.solver).items)
+        value = SStr([next(it) if ch == "*" else ord(ch) for ch in job["vtemplate"]])
+        lv = len(value.items)
     shims = rt_shims()
     SSeq.NORMALIZE = False
     SSeq.CONST_HASH = True
@@ -207,11 +215,90 @@ def concrete_roundtrip(w) -> Optional[str]:
 
 
 # ------------------------------------------------------------------ expiry
-class SymDT:
-    """printed wall clock of a datetime built from a symbolic timestamp"""
+def _t(x):
+    return x if isinstance(x, z3.ExprRef) else term_of(x)
 
-    def __init__(self, printed):
-        self.printed = printed
+
+class Zone:
+    """the server process's time zone: UTC offset as a function of the instant.  Fixed zones: one offset.  DST zones: an
+    uninterpreted function utcoff(t) in {std, std+3600}, evaluated wherever the code under test converts between an
+    instant and local wall-clock time; two evaluation points with different offsets lie at least 2 days apart (no
+    conversion right at a transition) so that a real POSIX TZ rule with one transition between them exists for replay."""
+
+    def __init__(self, std_term, dst: bool):
+        self.std, self.dst = std_term, dst
+        self.f = z3.Function("utcoff", z3.IntSort(), z3.IntSort())
+        self.points: List[Any] = []
+
+    def off(self, t):
+        t = _t(t)
+        if not self.dst:
+            return self.std
+        e = cur()
+        o = self.f(t)
+        e.assume(z3.Or(o == self.std, o == self.std + 3600))
+        for p in self.points:
+            if not z3.eq(p, t):
+                e.assume(z3.Or(self.f(p) == o, p - t >= 2 * 86400, t - p >= 2 * 86400))
+        if not any(z3.eq(p, t) for p in self.points):
+            self.points.append(t)
+        return o
+
+    def to_utc(self, local):
+        """the instant whose local wall-clock reading is `local` (what mktime / naive.astimezone() computes)"""
+        if not self.dst:
+            return _t(local) - self.std
+        u = cur().fresh("utc_of_local").e
+        cur().assume(u + self.off(u) == _t(local))
+        return u
+
+
+class SymTD:
+    """datetime.timedelta over symbolic seconds"""
+
+    def __init__(self, days=0, seconds=0, microseconds=0, milliseconds=0, minutes=0, hours=0, weeks=0):
+        if microseconds or milliseconds:
+            raise cur()._raise(Unsupported("sub-second timedelta"))
+        self.secs = ((weeks * 7 + days) * 24 + hours) * 3600 + minutes * 60 + seconds
+
+    def total_seconds(self):
+        return self.secs
+
+    def __neg__(self):
+        r = SymTD()
+        r.secs = -self.secs
+        return r
+
+
+def _secs(td):
+    if isinstance(td, SymTD):
+        return td.secs
+    if isinstance(td, _dt.timedelta):
+        if td.microseconds:
+            raise cur()._raise(Unsupported("sub-second timedelta"))
+        return td.days * 86400 + td.seconds
+    return None
+
+
+def _tzoff(tz):
+    d = tz.utcoffset(None)
+    return int(d.total_seconds())
+
+
+class SymDT:
+    """a datetime over a symbolic instant.  aware: `value` is the UTC instant and it prints value + tzoff;
+    naive: `value` is the wall-clock reading itself (what strftime prints), its instant depends on the zone."""
+
+    def __init__(self, zone: Zone, value, aware: bool, tzoff=0):
+        self.zone, self.value, self.aware, self.tzoff = zone, value, aware, tzoff
+
+    @property
+    def printed(self):
+        return self.value + self.tzoff if self.aware else self.value
+
+    @property
+    def tzinfo(self):
+        return _dt.timezone(_dt.timedelta(seconds=self.tzoff)) if self.aware and isinstance(self.tzoff, int) else (None if not self.aware else "local")
 
     def strftime(self, fmt):
         if fmt != "%a, %d %b %Y %H:%M:%S GMT":
@@ -221,31 +308,68 @@ class SymDT:
     def __bool__(self):
         return True
 
+    def __add__(self, td):
+        k = _secs(td)
+        if k is None:
+            return NotImplemented
+        return SymDT(self.zone, self.value + k, self.aware, self.tzoff)
+
+    __radd__ = __add__
+
+    def __sub__(self, td):
+        k = _secs(td)
+        if k is None:
+            raise cur()._raise(Unsupported("datetime - datetime on symbolic instants"))
+        return SymDT(self.zone, self.value - k, self.aware, self.tzoff)
+
+    def timestamp(self):
+        return self.value if self.aware else SInt(self.zone.to_utc(self.value))
+
+    def astimezone(self, tz=None):
+        inst = self.value if self.aware else SInt(self.zone.to_utc(self.value))
+        if tz is None:
+            return SymDT(self.zone, inst, True, SInt(self.zone.off(inst)))
+        return SymDT(self.zone, inst, True, _tzoff(tz))
+
+    def replace(self, **kw):
+        if set(kw) != {"tzinfo"}:
+            raise cur()._raise(Unsupported(f"datetime.replace({sorted(kw)}) on a symbolic instant"))
+        tz = kw["tzinfo"]
+        reading = self.printed
+        if tz is None:
+            return SymDT(self.zone, reading, False)
+        return SymDT(self.zone, reading - _tzoff(tz), True, _tzoff(tz))
+
 
 class DTMod:
     """stands for the `datetime` module inside baize.responses"""
     timezone = _dt.timezone
-    timedelta = _dt.timedelta
+    timedelta = SymTD
     UTC = _dt.timezone.utc
 
-    def __init__(self, offset):
-        off = offset
-
+    def __init__(self, zone: Zone, now):
         class datetime:  # noqa: N801
             @staticmethod
             def fromtimestamp(ts, tz=None):
                 if tz is None:
-                    return SymDT(ts + off)  # naive local: prints local wall clock
-                d = tz.utcoffset(None)
-                return SymDT(ts + int(d.total_seconds()))
+                    return SymDT(zone, ts + SInt(zone.off(ts)), False)  # naive local: prints local wall clock
+                return SymDT(zone, ts, True, _tzoff(tz))
 
             @staticmethod
             def utcfromtimestamp(ts):
-                return SymDT(ts)
+                return SymDT(zone, ts, False)
 
             @staticmethod
             def now(tz=None):
-                raise cur()._raise(Unsupported("datetime.now in set_cookie"))
+                return datetime.fromtimestamp(now, tz)
+
+            @staticmethod
+            def utcnow():
+                return SymDT(zone, now, False)
+
+            @staticmethod
+            def today():
+                return datetime.fromtimestamp(now)
         self.datetime = datetime
 
 
@@ -269,9 +393,18 @@ def job_expiry(job) -> report.JobResult:
     now_v, exp_v, age_v, off_v = z3.Int("now"), z3.Int("expires"), z3.Int("max_age"), z3.Int("utc_offset")
     eng.solver.add(now_v >= 10 ** 9 + 10 ** 9, now_v <= 4102444800, exp_v >= -10 ** 9, exp_v <= 10 ** 9, age_v >= -1, age_v <= 10 ** 9,
                    off_v >= -12 * 3600, off_v <= 14 * 3600, off_v % 900 == 0)
-    shims = Shims().add(R, time=TimeMod(SInt(now_v)), datetime=DTMod(SInt(off_v)))
+    dst = job.get("dst", False)
+    if dst:  # one transition between the two instants must be constructible as a yearly POSIX rule for the replay
+        eng.solver.add(exp_v >= -150 * 86400, exp_v <= 150 * 86400)
+    zone = Zone(off_v, dst)
+
+    def mk_shims():
+        zone.points = []
+        return None
+    shims = Shims().add(R, time=TimeMod(SInt(now_v)), datetime=DTMod(zone, SInt(now_v)))
 
     def fn():
+        zone.points = []
         r = WR.Response()
         if mode == "set":
             r.set_cookie("sid", "v", expires=SInt(exp_v), max_age=SInt(age_v))
@@ -332,7 +465,8 @@ def job_expiry(job) -> report.JobResult:
             e.last_sat = False
         m = e.witness()
         wit = {"mode": mode, "now": m.eval(now_v, True).as_long(), "expires": m.eval(exp_v, True).as_long(),
-               "max_age": m.eval(age_v, True).as_long(), "utc_offset": m.eval(off_v, True).as_long()}
+               "max_age": m.eval(age_v, True).as_long(), "utc_offset": m.eval(off_v, True).as_long(),
+               "offsets_at": sorted({(m.eval(p, True).as_long(), m.eval(zone.f(p), True).as_long()) for p in zone.points})}
         with shims.off():
             cp = concrete_expiry(wit)
         if klass is not None:
@@ -358,6 +492,18 @@ time.tzset()
 import baize.responses as R, baize.wsgi.responses as WR
 from email.utils import parsedate_to_datetime
 R.time = type("T", (), {"time": staticmethod(lambda: w["now"]), "__getattr__": lambda s, k: getattr(time, k)})()
+import datetime as _d
+class _Clock(_d.datetime):  # the system clock is the only thing replaced: "now" is the witness instant
+    @classmethod
+    def now(cls, tz=None): return cls.fromtimestamp(w["now"], tz)
+    @classmethod
+    def utcnow(cls): return cls.utcfromtimestamp(w["now"])
+    @classmethod
+    def today(cls): return cls.fromtimestamp(w["now"])
+R.datetime = type("D", (), {"datetime": _Clock, "__getattr__": lambda s, k: getattr(_d, k)})()
+for t, o in w.get("offsets_at", []):
+    if time.localtime(t).tm_gmtoff != o:
+        print(json.dumps("ZONE-MISMATCH at %d: libc says %d, witness %d (TZ=%s)" % (t, time.localtime(t).tm_gmtoff, o, os.environ.get("TZ")))); sys.exit(0)
 r = WR.Response()
 if w["mode"] == "set": r.set_cookie("sid", "v", expires=w["expires"], max_age=w["max_age"])
 elif w["mode"] == "set-noexp": r.set_cookie("sid", "v", max_age=w["max_age"])
@@ -384,18 +530,51 @@ print(json.dumps(out))
 '''
 
 
+def _posix_off(sec: int) -> str:
+    """POSIX TZ offset text: sign inverted ('UTC+01:00' is written -1)"""
+    sign = "-" if sec >= 0 else "+"
+    a = abs(sec)
+    return f"{sign}{a // 3600}:{(a % 3600) // 60:02d}:{a % 60:02d}"
+
+
+def _rule_at(local_reading: int) -> str:
+    """POSIX rule 'n/hh:mm:ss' (zero-based day of the year, leap days counted) for a local wall-clock reading"""
+    t = _time.gmtime(local_reading)
+    return f"{t.tm_yday - 1}/{t.tm_hour}:{t.tm_min:02d}:{t.tm_sec:02d}"
+
+
+def tz_for(w) -> str:
+    """a real POSIX TZ whose offsets at the witness instants are the witness offsets: fixed, or one DST transition placed
+    midway between the two neighbouring instants that differ (DST season of 170 days on the side the witness says)"""
+    pts = [tuple(p) for p in w.get("offsets_at", [])]
+    offs = {o for _, o in pts}
+    if len(offs) <= 1:
+        off = offs.pop() if offs else w["utc_offset"]
+        return "VRF" + _posix_off(off)
+    std, dst = min(offs), max(offs)
+    pts.sort()
+    for (t1, o1), (t2, o2) in zip(pts, pts[1:]):
+        if o1 != o2:
+            mid = (t1 + t2) // 2
+            if o1 < o2:  # entering DST at mid
+                start, end = mid, mid + 170 * 86400
+            else:        # leaving DST at mid
+                start, end = mid - 170 * 86400, mid
+            return f"VRS{_posix_off(std)}VRD{_posix_off(dst)},{_rule_at(start + std)},{_rule_at(end + dst)}"
+    raise AssertionError("unreachable")
+
+
 def concrete_expiry(w) -> Optional[str]:
     import json
-    off = w["utc_offset"]
-    # POSIX TZ: sign inverted, "UTC offset +01:00" is written <X>-1
-    sign = "-" if off >= 0 else "+"
-    a = abs(off)
-    tz = f"VRF{sign}{a // 3600}:{(a % 3600) // 60:02d}"
+    tz = tz_for(w)
     env = dict(os.environ, TZ=tz, PYTHONPATH=os.pathsep.join(sys.path))
     p = subprocess.run([sys.executable, "-c", _CHILD, json.dumps(w)], env=env, capture_output=True, text=True, timeout=60)
     if p.returncode != 0:
         return f"child failed: {p.stderr[-300:]}"
-    return json.loads(p.stdout.strip().splitlines()[-1])
+    out = json.loads(p.stdout.strip().splitlines()[-1])
+    if isinstance(out, str) and out.startswith("ZONE-MISMATCH"):
+        return None  # the replay zone could not be built as the witness demands: not a confirmation
+    return out if out is None else f"{out} [TZ={tz}]"
 
 
 def jobs(tier: str):
@@ -411,9 +590,14 @@ def jobs(tier: str):
                         continue
                     out.append(dict(name=f"roundtrip/{iface}/{'among' if among else 'alone'}/n{ln}v{lv}", kind="roundtrip", iface=iface, among=among,
                                     ln=ln, lv=lv, weight=6 ** lv * ln))
+    for iface in ("wsgi", "asgi"):
+        for t in ("\\***", "*\\**") if tier == "quick" else ("\\***", "*\\**", "\\****", "**\\***", "\"**\""):
+            out.append(dict(name=f"roundtrip/{iface}/alone/n1/shape:{t}", kind="roundtrip", iface=iface, among=False, ln=1, lv=len(t), vtemplate=t, weight=6 ** t.count("*")))
     out.append(dict(name="twin/roundtrip", kind="roundtrip", iface="wsgi", among=False, ln=1, lv=1, twin=True))
     for mode in ("set", "set-noexp", "delete"):
         out.append(dict(name=f"expiry/{mode}", kind="expiry", mode=mode))
+    out.append(dict(name="expiry/set/dst-zone", kind="expiry", mode="set", dst=True))
+    out.append(dict(name="expiry/delete/dst-zone", kind="expiry", mode="delete", dst=True))
     out.append(dict(name="twin/expiry", kind="expiry", mode="set", twin=True))
     return out
 
